@@ -479,6 +479,21 @@ class Interp:
             ob, name = w.ref(op[1]), op[2]
             Rows.descr_get(self, n, ob, name)
             return C(getattr(ob, name))
+        if k == "descr_get":
+            # a direct two-argument call of the descriptor's __get__ (what inspect-like code does):
+            # ["descr_get", "osd", inst | None, cls | None]
+            # ["descr_get", "cpb", inst | None, cls | None, owner class whose ClassProvides is used]
+            inst = None if op[2] is None else w.ref(op[2])
+            cls = None if op[3] is None else w.ref(op[3])
+            if inst is None and cls is None:
+                raise RuntimeError("__get__(None, None) is a slot-wrapper matter")
+            if op[1] == "osd":
+                d = ObjectSpecificationDescriptor()
+            else:
+                owner = w.ref(op[4])
+                implementedBy(owner)
+                d = owner.__dict__["__provides__"]
+            return C(d.__get__(inst, cls))
         # ---------------- comparison, hashing, sorting
         if k == "cmp":
             a, b = w.ref(op[1]), w.ref(op[2])
